@@ -896,7 +896,7 @@ pub fn property() -> Property {
             PropSub {
                 name: "created",
                 strategy: created_strategy,
-                cases: |t| t.pick(24_000, 400_000),
+                cases: |t| t.pick(72_000, 800_000),
                 run: run_created,
                 floors: &[
                     ("expect-accept", 0.15),
@@ -911,12 +911,12 @@ pub fn property() -> Property {
                 ],
             }
             .boxed(),
-            PropSub { name: "foreign", strategy: foreign_strategy, cases: |t| t.pick(40_000, 600_000), run: run_foreign, floors: FOREIGN_FLOORS }
+            PropSub { name: "foreign", strategy: foreign_strategy, cases: |t| t.pick(120_000, 1_200_000), run: run_foreign, floors: FOREIGN_FLOORS }
                 .boxed(),
             PropSub {
                 name: "protocol",
                 strategy: proto_strategy,
-                cases: |t| t.pick(12_000, 200_000),
+                cases: |t| t.pick(36_000, 400_000),
                 run: run_proto,
                 floors: &[
                     ("provisioning:created", 0.08),
